@@ -130,3 +130,23 @@ func init() {
 		},
 	})
 }
+
+func init() {
+	register(&Property{
+		ID: "C15", Title: "Crash freedom and containment of malformed input",
+		Explanation: "tbd",
+		Rules: []Rule{
+			{Name: "DOM/all-or-nothing", Min: 10, Run: ruleDecoders, Doc: "decoders return no data with an error"},
+			{Name: "DOM/index-kind-guard", Min: 8, Run: ruleIndexKindGuards, Doc: "decoded indexes bounded; content of the right kind"},
+			{Name: "DOM/opt-deref", Min: 8, Run: ruleOptDeref, Doc: "optional decoded pointers dereferenced under their test"},
+			{Name: "CENSUS/panic", Min: 6, Run: rulePanicCensus, Doc: "explicit panics and unchecked assertions are the listed ones"},
+		},
+	})
+	register(&Property{
+		ID: "C16", Title: "HTTP resources are a faithful, finite rendering",
+		Explanation: "tbd",
+		Rules: []Rule{
+			{Name: "PAIR/enc-path", Min: 3, Run: ruleEncoder, Doc: "expansion path balance, cycle guard, HEAD==GET"},
+		},
+	})
+}
